@@ -1,4 +1,4 @@
-import CedarVerif.Lemmas.PolicySetApi
+import CedarVerif.Lemmas.PolicySetApiRefine
 /-
 C08 — Template linking equals substitution; policy-set edits keep ids consistent.
 
@@ -237,5 +237,120 @@ theorem refines_spec_partial (ps : PolicySet) (tid newId : String) (vals : SlotV
   constructor
   · rintro ⟨t, h1, h2, h3⟩; exact ⟨t, h1, (checkBinding_iff t vals).mpr h2, h3⟩
   · rintro ⟨t, h1, h2, h3⟩; exact ⟨t, h1, (checkBinding_iff t vals).mp h2, h3⟩
+
+/-- C08: `RefinesSpec` holds — every non-merge operation of the core set, applied to a well-formed set (for `link`:
+on a template id that is not a policy id), succeeds exactly when the abstract operation succeeds on `ps.abs`, and then
+`abs` of the result has exactly the members of the abstract result. -/
+theorem refines_spec : RefinesSpec := by
+  intro ps op sop wf adm hm
+  have hsop : sop = op.toSpec := by
+    cases op <;> cases sop <;> simp only [CoreOp.toSpec] at hm ⊢ <;>
+      first
+        | exact hm.elim
+        | (obtain ⟨rfl, rfl, rfl⟩ := hm; rfl)
+        | (obtain ⟨rfl, _⟩ := hm; rfl)
+        | (cases hm; rfl)
+  subst hsop
+  have wf' := PolicySet.applyOp_wf ps op wf adm
+  have h := PolicySet.applyOp_refines ps op ps.abs wf adm (PolicySet.absRel_abs ps wf.tNodup wf.lNodup)
+  cases hs : ps.abs.apply op.toSpec with
+  | none => rw [hs] at h; exact h.1
+  | some sp => rw [hs] at h; exact ⟨h.1, (PolicySet.absRel_abs _ wf'.tNodup wf'.lNodup).same h.2⟩
+
+/-- the same against any abstract state with the members of `ps.abs` (`PolicySet.AbsRel`: statics = links without
+link id, templates = templates that are not policy ids, links = links with link id), including what a failed call
+leaves behind: a state still related to the unchanged abstract state -/
+theorem op_refines_spec (ps : PolicySet) (op : CoreOp) (sp : Spec) (wf : Invariant ps) (adm : op.admissible ps)
+    (R : ps.AbsRel sp) :
+    match sp.apply op.toSpec with
+    | none => (ps.applyOp op).err ≠ none ∧ (ps.applyOp op).ps.AbsRel sp
+    | some sp' => (ps.applyOp op).err = none ∧ (ps.applyOp op).ps.AbsRel sp' :=
+  PolicySet.applyOp_refines ps op sp wf adm R
+
+/-- C08: after any history of core operations from the empty set (links issued as the API issues them), the set
+contains exactly the static policies, templates and links that the successful operations imply: its abstraction has
+the members of the state reached by the abstract specification, where a failed operation changes nothing. -/
+theorem history_refines_spec (ops : List CoreOp) (adm : PolicySet.admissibleHist {} ops) :
+    (PolicySet.run {} ops).AbsRel (Spec.run {} (ops.map CoreOp.toSpec)) ∧
+    (∀ x, x ∈ (PolicySet.run {} ops).abs.statics ↔ x ∈ (Spec.run {} (ops.map CoreOp.toSpec)).statics) ∧
+    (∀ x, x ∈ (PolicySet.run {} ops).abs.templates ↔ x ∈ (Spec.run {} (ops.map CoreOp.toSpec)).templates) ∧
+    (∀ x, x ∈ (PolicySet.run {} ops).abs.links ↔ x ∈ (Spec.run {} (ops.map CoreOp.toSpec)).links) := by
+  have R := PolicySet.run_refines ops {} {} PolicySet.wf_empty adm PolicySet.absRel_empty
+  have wf := PolicySet.run_wf ops {} PolicySet.wf_empty adm
+  exact ⟨R, (PolicySet.absRel_abs _ wf.tNodup wf.lNodup).same R⟩
+
+example :
+    let b : TemplateBody := { id := "a", annotations := [], effect := .permit, principalC := .any, actionC := .any, resourceC := .any, nonScope := none }
+    let t : Template := { body := { b with id := "t", principalC := .eq .slot }, slots := [.principal] }
+    let ops := [CoreOp.addStatic b, .addTemplate t, .link "t" "l" { principal := some ⟨"User", "u"⟩ }, .addStatic b, .removeTemplate "t",
+                .removeStatic "l", .unlink "l", .removeTemplate "t", .addTemplate t, .link "t" "l2" {}]
+    PolicySet.admissibleHist {} ops ∧
+    (Spec.run {} (ops.map CoreOp.toSpec)).statics.map (·.1) = ["a"] ∧
+    (Spec.run {} (ops.map CoreOp.toSpec)).templates.map (·.1) = ["t"] ∧
+    (Spec.run {} (ops.map CoreOp.toSpec)).links = [] ∧
+    ((Spec.run {} ((ops.take 3).map CoreOp.toSpec)).apply (.removeTemplate "t")).isNone = true := by
+  decide +kernel
+
+/-- the known core-only behaviour, as a counterexample to `RefinesSpec` without admissibility: the core `link`
+accepts the body of a static policy as a template where the specification (and the API) refuses -/
+example :
+    let b : TemplateBody := { id := "a", annotations := [], effect := .permit, principalC := .any, actionC := .any, resourceC := .any, nonScope := none }
+    let ps := (PolicySet.addStatic {} b).ps
+    (ps.link "a" "l" {}).err = none ∧ (ps.abs.apply (.link "a" "l" {})).isNone = true ∧
+    ¬ (CoreOp.link "a" "l" {}).admissible ps := by
+  decide +kernel
+
+/-! ### … and for the public API layer, unconditionally -/
+
+/-- C08 (API layer): `ApiProjection` as an invariant: every operation preserves "the API's `policies` map is the
+core `links` map and the API's `templates` map is the core templates that are not policy ids". -/
+theorem api_op_proj (s : ApiPolicySet) (op : ApiOp) (wf : s.WF) (pr : s.Proj) : (s.applyOp op).ps.Proj :=
+  ApiPolicySet.applyOp_proj s op wf pr
+
+/-- C08 (API layer): `ApiProjection` holds. -/
+theorem api_projection : ApiProjection := by
+  intro ops wt
+  have h := (ApiPolicySet.run_proj ops {} ApiPolicySet.wf_empty ApiPolicySet.proj_empty wt).2
+  refine ⟨fun k p => ?_, h.tmpl⟩
+  rw [h.pol]
+
+/-- C08 (API layer): one call refines the abstract operation: same verdict, related states — no admissibility
+hypothesis (the API's guards are the specification's). -/
+theorem api_op_refines_spec (s : ApiPolicySet) (op : ApiOp) (sp : Spec) (wf : s.WF) (pr : s.Proj)
+    (R : s.ast.AbsRel sp) :
+    match sp.apply op.toSpec with
+    | none => (s.applyOp op).err ≠ none ∧ (s.applyOp op).ps.ast.AbsRel sp
+    | some sp' => (s.applyOp op).err = none ∧ (s.applyOp op).ps.ast.AbsRel sp' :=
+  ApiPolicySet.applyOp_refines s op sp wf pr R
+
+/-- C08 (API layer), the unconditional statement: after any sequence of add, add_template, link, unlink,
+remove_static, remove_template calls on the public `PolicySet` starting from the empty set, the set contains exactly
+the static policies, templates and links that the successful operations imply (the state of the abstract
+specification run on the same calls), and the listings `policies()` / `templates()` of the API are those. -/
+theorem api_history_refines_spec (ops : List ApiOp) (wt : ∀ op, op ∈ ops → op.wellTyped) :
+    (ApiPolicySet.run {} ops).ast.AbsRel (Spec.run {} (ops.map ApiOp.toSpec)) ∧
+    (∀ x, x ∈ (ApiPolicySet.run {} ops).abs.statics ↔ x ∈ (Spec.run {} (ops.map ApiOp.toSpec)).statics) ∧
+    (∀ x, x ∈ (ApiPolicySet.run {} ops).abs.templates ↔ x ∈ (Spec.run {} (ops.map ApiOp.toSpec)).templates) ∧
+    (∀ x, x ∈ (ApiPolicySet.run {} ops).abs.links ↔ x ∈ (Spec.run {} (ops.map ApiOp.toSpec)).links) ∧
+    (∀ k t, (ApiPolicySet.run {} ops).templates.get? k = some t ↔ (k, t) ∈ (Spec.run {} (ops.map ApiOp.toSpec)).templates) := by
+  have R := ApiPolicySet.run_refines ops {} {} ApiPolicySet.wf_empty ApiPolicySet.proj_empty wt PolicySet.absRel_empty
+  obtain ⟨wf, pr⟩ := ApiPolicySet.run_proj ops {} ApiPolicySet.wf_empty ApiPolicySet.proj_empty wt
+  obtain ⟨h1, h2, h3⟩ := (PolicySet.absRel_abs _ wf.ast.tNodup wf.ast.lNodup).same R
+  refine ⟨R, h1, h2, h3, fun k t => ?_⟩
+  rw [pr.tmpl, R.templates]
+
+example :
+    let b : TemplateBody := { id := "a", annotations := [], effect := .permit, principalC := .any, actionC := .any, resourceC := .any, nonScope := none }
+    let t : Template := { body := { b with id := "t", principalC := .eq .slot }, slots := [.principal] }
+    let ops := [ApiOp.add b, .link "a" "l" {}, .addTemplate t, .link "t" "l" { principal := some ⟨"User", "u"⟩ }, .removeStatic "l",
+                .removeTemplate "t", .unlink "a"]
+    (∀ op, op ∈ ops → op.wellTyped) ∧
+    (Spec.run {} (ops.map ApiOp.toSpec)).statics.map (·.1) = ["a"] ∧
+    (Spec.run {} (ops.map ApiOp.toSpec)).templates.map (·.1) = ["t"] ∧
+    (Spec.run {} (ops.map ApiOp.toSpec)).links = [("l", ("t", { principal := some ⟨"User", "u"⟩ }))] := by
+  refine ⟨?_, by decide +kernel⟩
+  intro op hop
+  simp only [List.mem_cons, List.not_mem_nil, or_false] at hop
+  rcases hop with rfl | rfl | rfl | rfl | rfl | rfl | rfl <;> simp [ApiOp.wellTyped]
 
 end Cedar.C08
